@@ -267,7 +267,25 @@ class C01Monitor(jobsim.Monitor):
         fk3, items3 = self.make_fork(eng, c, it["x"])
         for k, spec in enumerate(self.doc["items"]):
             item = fk3.items[k]
-            if item not in items3 or spec["type"] in ("SolidBodyNearlyIncompressible",):
+            if item in items3 and spec["type"] == "SolidBodyNearlyIncompressible":
+                # the condensed body is a stateful iteration: two cold forks in the same state are moved to
+                # the same new displacements, one by matrix(field) alone (tangent first), the other by
+                # vector(field) followed by matrix() - one extraction each, the same matrix
+                fkb, _ = self.make_fork(eng, c, it["x"])
+                xa = fk3.vector()
+                xn = xa + 0.02 * xs * scx[: xa.size] * self.rng.normal(size=xa.size)
+                fk3.set_vector(xn)
+                fkb.set_vector(xn)
+                Ka = item.assemble.matrix(field=item.field).toarray()
+                fkb.items[k].assemble.vector(field=fkb.items[k].field)
+                Kb = fkb.items[k].assemble.matrix().toarray()
+                fk3.set_vector(xa)
+                ok, rel = close_exact_twin(Ka, Kb, rtol=1e-9, atol=1e-10 * (float(np.abs(Kb).max()) + 1e-300))
+                if not ok:
+                    self.V("call-order", f"matrix(field) of the nearly-incompressible body at new displacements differs from vector(field) followed by matrix() from the same previous state (rel {rel:.2e})", site="SolidBodyNearlyIncompressible.matrix-first")
+                self.log.count("call-order-checked:condensed")
+                continue
+            if item not in items3:
                 continue
             kw = {}
             if spec["type"] == "SolidBodyPressure":
